@@ -493,8 +493,15 @@ impl BigDecimal {
                 let (mut q, r) = self.int_val.div_rem(&p);
 
                 // check for "leading zero" in remainder term; otherwise round
-                if p < 10 * &r {
-                    q += get_rounding_term(&r);
+                // (the remainder carries the sign of the number: round on its magnitude)
+                let r_abs = r.abs();
+                if p < 10 * &r_abs {
+                    let rounding_term = get_rounding_term(&r_abs);
+                    if r.is_negative() {
+                        q -= rounding_term;
+                    } else {
+                        q += rounding_term;
+                    }
                 }
 
                 BigDecimal {
